@@ -57,7 +57,7 @@ class Q:
                  instr=(), cbmc=(), tier="quick", required=True, timeout=None, entry="harness",
                  scaled=(), expect_fail=None, solver=None, native=False, note="",
                  repo_defs=None, leak=False, nowitness=False, pre=None, checks=True,
-                 lib_unwind_violation=False, unwind_fn=None, src_flags=None, extra_srcs=None):
+                 lib_unwind_violation=False, unwind_fn=None, src_flags=None, extra_srcs=None, cache_harness=False):
         self.name = name
         self.harness = harness
         self.srcs = list(srcs)
@@ -82,6 +82,7 @@ class Q:
         self.lib_unwind_violation = lib_unwind_violation
         self.src_flags = dict(src_flags or {})   # {repo-relative source: [extra compiler flags]} (paths may contain @wd)
         self.extra_srcs = list(extra_srcs or [])  # generated sources (paths may start with @wd/)
+        self.cache_harness = cache_harness   # harness object shared between queries with equal flags (no generated includes)
         self.unwind_fn = dict(unwind_fn or {})   # {function-name regex: bound} -> expanded to --unwindset per loop
         self.checks = checks            # False: functional query, CBMC's memory-safety/overflow instrumentation off
         self.pre = pre                  # callable(wd, repo): generate headers into wd before compiling
@@ -138,7 +139,7 @@ def build(q, wd, witness):
     defs = dflags(q.defs) + (["-DWITNESS"] if witness else [])
     objs = []
     hpath = os.path.join(wd, q.harness[4:]) if q.harness.startswith("@wd/") else os.path.join(VERIF, "harness", q.harness)
-    jobs = [(hpath, "h", defs)]
+    jobs = [(hpath, "e" if (q.cache_harness and not q.harness.startswith("@wd/")) else "h", defs)]
     for e in q.env:
         jobs.append((os.path.join(VERIF, "env", e), "e", defs))
     for s in q.srcs:
@@ -326,7 +327,7 @@ def run_query(pid, q, tier, keep=False, verbose=False):
            "unwind": q.unwind, "unwindset": q.unwindset, "srcs": q.srcs, "scaled": q.scaled,
            "status": None, "seconds": 0.0, "solver": None, "obligations": 0, "discharged": 0,
            "fails": [], "witness": None, "note": q.note, "expect_fail": q.expect_fail}
-    tmo = q.timeout or (150 if tier == "quick" else 1800)
+    tmo = q.timeout or (600 if tier == "quick" else 3600)
     if os.environ.get("VERIF_TIMEOUT"):
         tmo = int(os.environ["VERIF_TIMEOUT"])
     t0 = time.time()
@@ -402,7 +403,9 @@ def run_query(pid, q, tier, keep=False, verbose=False):
                 except Exception:
                     pass
             res["witness"] = reached
-            if not reached:
+            if rc == -9:
+                res["status"] = "timeout"      # witness twin undecided: inconclusive, not vacuous
+            elif not reached:
                 res["status"] = "vacuous"
         return res
     finally:
